@@ -47,19 +47,19 @@ type Result struct {
 type Ctx struct {
 	P *load.Program
 	// lazily built shared analyses
-	graph   *Graph
-	loud    *LoudModel
-	cmds    *CommandModel
-	rxTable *RxTable
-	factCache map[*ssa.Function]map[*ssa.BasicBlock]condFacts
-	smCache   []*submatchSite
-	defFrag   map[*ssa.Function]string
-	depWr     map[*ssa.Function]string
-	depCalls  int
-	depNotes  []string
-	wsites    []*writeSite
-	flagStrong map[*ssa.Alloc]bool
-	flagKnown  map[*ssa.Alloc]bool
+	graph       *Graph
+	loud        *LoudModel
+	cmds        *CommandModel
+	rxTable     *RxTable
+	factCache   map[*ssa.Function]map[*ssa.BasicBlock]condFacts
+	smCache     []*submatchSite
+	defFrag     map[*ssa.Function]string
+	depWr       map[*ssa.Function]string
+	depCalls    int
+	depNotes    []string
+	wsites      []*writeSite
+	flagStrong  map[*ssa.Alloc]bool
+	flagKnown   map[*ssa.Alloc]bool
 	fieldStrong map[*types.Var]bool
 	fieldKnown  map[*types.Var]bool
 
